@@ -41,7 +41,9 @@ WarnOK(e) == CASE WarnSpec(ions) = "yes" -> e.warned
 FinalOK(e) == Len(e.final) = Len(ions)
               /\ \A i \in 1..Len(ions) : e.final[i].b = ions[i].b /\ e.final[i].z = ions[i].z
 
-ResultOK(e) == stage = "done" /\ FinalOK(e) /\ ValueOK(e) /\ WarnOK(e)
+(* e.ok = FALSE: the observed result could not be written as a non-negative exact number (nan, inf,  *)
+(* negative, complex, wrong type ...) - such an observation equals no expectation                  *)
+ResultOK(e) == stage = "done" /\ FinalOK(e) /\ e.ok /\ ValueOK(e) /\ WarnOK(e)
 
 TStep ==
     /\ verdict = "none" /\ pos <= Len(Traces[tid])
@@ -62,6 +64,7 @@ Clause ==
       IF e.k # "result" THEN "step:" \o e.k
       ELSE IF stage # "done" THEN "notdone"
       ELSE IF ~FinalOK(e) THEN "final-list"
+      ELSE IF ~e.ok THEN "unencodable-value"
       ELSE IF ~ValueOK(e) THEN "value"
       ELSE IF WarnSpec(ions) = "yes" THEN "missing-warning"
       ELSE "spurious-warning"
